@@ -38,6 +38,7 @@ type rewriter struct {
 	errs      []string
 	info      *types.Info         // nil: purely syntactic mode
 	mapRange  map[*ast.RangeStmt]bool
+	chanRange map[*ast.RangeStmt]bool
 	mapOnly   bool
 }
 
@@ -185,10 +186,28 @@ func (r *rewriter) stmt(s ast.Stmt) ast.Stmt {
 		}
 		return &ast.BlockStmt{List: append(pre, goCall)}
 	case *ast.RangeStmt:
-		// range over a channel is not supported: if it occurs the rewritten file does not compile (UNDECIDED).
 		// range over a map: iterate in sorted key order, so that Go's randomised map iteration is not an unowned source of nondeterminism
 		if r.mapRange[x] {
 			return r.sortedRange(x)
+		}
+		// range over a channel: for { v, ok := ch.Recv2(); if !ok { break }; body }
+		if r.chanRange[x] {
+			r.usedRT = true
+			okID := ast.NewIdent("verifrtRangeOk")
+			var key ast.Expr = ast.NewIdent("_")
+			if x.Key != nil {
+				key = x.Key
+			}
+			recv := method(x.X, "Recv2")
+			var head []ast.Stmt
+			if x.Tok == token.ASSIGN && x.Key != nil {
+				head = append(head, &ast.DeclStmt{Decl: &ast.GenDecl{Tok: token.VAR, Specs: []ast.Spec{&ast.ValueSpec{Names: []*ast.Ident{okID}, Type: ast.NewIdent("bool")}}}},
+					&ast.AssignStmt{Lhs: []ast.Expr{key, okID}, Tok: token.ASSIGN, Rhs: []ast.Expr{recv}})
+			} else {
+				head = append(head, &ast.AssignStmt{Lhs: []ast.Expr{key, okID}, Tok: token.DEFINE, Rhs: []ast.Expr{recv}})
+			}
+			head = append(head, &ast.IfStmt{Cond: &ast.UnaryExpr{Op: token.NOT, X: okID}, Body: &ast.BlockStmt{List: []ast.Stmt{&ast.BranchStmt{Tok: token.BREAK}}}})
+			return &ast.ForStmt{Body: &ast.BlockStmt{List: append(head, x.Body.List...)}}
 		}
 	}
 	return s
@@ -363,6 +382,9 @@ func (r *rewriter) node(n ast.Node) ast.Node {
 				if _, isMap := tv.Type.Underlying().(*types.Map); isMap {
 					r.mapRange[x] = true
 				}
+				if _, isChan := tv.Type.Underlying().(*types.Chan); isChan {
+					r.chanRange[x] = true
+				}
 			}
 		}
 	case *ast.SelectStmt:
@@ -466,7 +488,7 @@ func instrument(fset *token.FileSet, path string, stmtYield, mapOnly bool, f *as
 	}
 	f.Comments = nil
 	f.Doc = nil
-	r := &rewriter{fset: fset, file: path, genRecv: map[*ast.CallExpr]bool{}, stmtYield: stmtYield, info: info, mapRange: map[*ast.RangeStmt]bool{}, mapOnly: mapOnly}
+	r := &rewriter{fset: fset, file: path, genRecv: map[*ast.CallExpr]bool{}, stmtYield: stmtYield, info: info, mapRange: map[*ast.RangeStmt]bool{}, chanRange: map[*ast.RangeStmt]bool{}, mapOnly: mapOnly}
 	// imports: sync -> vsync, sync/atomic -> vatomic
 	for _, im := range f.Imports {
 		if !syncShims {
